@@ -228,7 +228,8 @@ class NumpyArrayWrapper(object):
             # + 1 is for the padding byte
             offset += padding_length + 1
 
-        if unpickler.mmap_mode == "w+":
+        if unpickler.mmap_mode in ("w+", "write"):
+            # numpy would create (and zero) the file: never for loading
             unpickler.mmap_mode = "r+"
 
         marray = make_memmap(
